@@ -88,8 +88,14 @@ class QG:
                 srcs.append(tv)
                 pool += self.fields_of(tv)
         head = "%s.from_(%s)" % (qn, srcs[0])
+        if depth == 0 and r.random() < 0.12:
+            # a WITH entry (with a data value of its own) in front of the statement
+            wt = self.new_table(("w",))
+            gw = self.eg(self.fields_of(wt))
+            head = "%s.with_(%s.from_(%s).select(%s.a).where(%s.b == %s), %r).from_(%s)" % (
+                qn, qn, wt, wt, wt, gw.string() if r.random() < 0.7 else gw.pynum(), "cte%d" % (self.nvar + 1), srcs[0])
         table_entry = None
-        if nfrom == 1 and srcs[0].startswith("t") and r.random() < 0.1 and not self.portable:
+        if nfrom == 1 and srcs[0].startswith("t") and r.random() < 0.1 and not self.portable and ".with_(" not in head:
             # Table.select(...): the statement starts from a table created through the query class
             table_entry = self.class_table(cls)
             pool = self.fields_of(table_entry)
